@@ -558,6 +558,14 @@ class Program:
                     raise CannotFold(f"{cname} not foldable: {unparse(node)[:60]}")
             if cname in ("any", "all", "sum") and len(node.args) == 1 and not node.keywords:
                 return {"any": any, "all": all, "sum": sum}[cname](f(node.args[0]))
+            if cname in ("re.sub", "re.subn") and len(node.args) in (3, 4) and all(k.arg in ("count", "flags") for k in node.keywords):
+                import re as _re2
+                a_ = [f(x) for x in node.args]
+                if all(isinstance(x, (str, int)) for x in a_) and isinstance(a_[0], str) and isinstance(a_[1], str) and isinstance(a_[2], str):
+                    try:
+                        return getattr(_re2, cname[3:])(*a_, **{k.arg: f(k.value) for k in node.keywords})
+                    except _re2.error:
+                        raise CannotFold(f"regex does not compile: {unparse(node)[:60]}")
             if cname == "re.escape" and len(node.args) == 1:
                 import re as _re
                 return _re.escape(f(node.args[0]))
